@@ -68,29 +68,48 @@ func (cp *cfgPath) onPath(v ssa.Value) ssa.Value {
 	return v
 }
 
-func (cp *cfgPath) key(v ssa.Value) string {
+func (cp *cfgPath) key(v ssa.Value) string { return cp.keyD(v, 0) }
+
+// keyD: on a path that starts at the source of a back edge a header phi resolves to a value of the previous
+// iteration, which may be defined in terms of that same phi (u = u >> 1): the depth bound ends the unfolding.
+func (cp *cfgPath) keyD(v ssa.Value, d int) string {
+	if d > 24 {
+		return fmt.Sprintf("%s@%p", v.Name(), v)
+	}
 	v = cp.onPath(v)
 	switch x := v.(type) {
 	case *ssa.Const:
 		return cp.p.expr(x)
 	case *ssa.BinOp:
-		return "(" + cp.key(x.X) + " " + x.Op.String() + " " + cp.key(x.Y) + ")"
+		return "(" + cp.keyD(x.X, d+1) + " " + x.Op.String() + " " + cp.keyD(x.Y, d+1) + ")"
 	case *ssa.UnOp:
 		if x.Op == token.NOT {
-			return "!" + cp.key(x.X)
+			return "!" + cp.keyD(x.X, d+1)
 		}
 	case *ssa.Convert:
-		return "conv(" + cp.key(x.X) + ")"
+		return "conv(" + cp.keyD(x.X, d+1) + ")"
 	case *ssa.Extract:
-		return fmt.Sprintf("%s#%d", cp.key(x.Tuple), x.Index)
+		return fmt.Sprintf("%s#%d", cp.keyD(x.Tuple, d+1), x.Index)
 	}
 	return fmt.Sprintf("%s@%p", v.Name(), v)
 }
 
-func (cp *cfgPath) assert(cond ssa.Value, pol bool) {
+func (cp *cfgPath) assert(cond ssa.Value, pol bool) { cp.assertD(cond, pol, 0) }
+
+func (cp *cfgPath) assertD(cond ssa.Value, pol bool, d int) {
+	if d > 24 {
+		return
+	}
 	cond = cp.onPath(cond)
 	if u, ok := cond.(*ssa.UnOp); ok && u.Op == token.NOT {
-		cp.assert(u.X, !pol)
+		cp.assertD(u.X, !pol, d+1)
+		return
+	}
+	if c, ok := cond.(*ssa.Const); ok {
+		// a branch on a variable whose value on this path is a constant (`ok := false; for !ok {`)
+		if b, isB := constBool(c); isB && b != pol {
+			cp.infeasible = true
+		}
 		return
 	}
 	if old, ok := cp.known[cp.key(cond)]; ok && old != pol {
@@ -110,7 +129,12 @@ func (cp *cfgPath) assert(cond ssa.Value, pol bool) {
 }
 
 // eval returns (value, known).
-func (cp *cfgPath) eval(v ssa.Value) (bool, bool) {
+func (cp *cfgPath) eval(v ssa.Value) (bool, bool) { return cp.evalD(v, 0) }
+
+func (cp *cfgPath) evalD(v ssa.Value, d int) (bool, bool) {
+	if d > 24 {
+		return false, false
+	}
 	v = cp.onPath(v)
 	switch x := v.(type) {
 	case *ssa.Const:
@@ -119,7 +143,7 @@ func (cp *cfgPath) eval(v ssa.Value) (bool, bool) {
 		}
 	case *ssa.UnOp:
 		if x.Op == token.NOT {
-			b, ok := cp.eval(x.X)
+			b, ok := cp.evalD(x.X, d+1)
 			return !b, ok
 		}
 	}
